@@ -30,7 +30,7 @@ def crash(r):
     return None
 
 
-def outcome(ctx, r, text):
+def outcome(ctx, r, text, profile="release"):
     """None when r is a table or an error; Fail for panic/death; hangs are confirmed with a long timeout first."""
     sig = crash(r)
     if sig is None:
@@ -38,9 +38,9 @@ def outcome(ctx, r, text):
             return None
         return Fail("C19/bad-response", "unexpected driver answer %r" % (r,))
     if sig == "C19/hang":
-        r2 = ctx.driver().safe({"op": "dtable", "text": text}, timeout=90)
+        r2 = ctx.driver(profile).safe({"op": "dtable", "text": text}, timeout=90)
         if "timeout" not in r2:
-            return outcome(ctx, r2, text) if crash(r2) else None
+            return outcome(ctx, r2, text, profile) if crash(r2) else None
         return Fail(sig, "recognition does not terminate within 90 s for:\n%s" % text)
     return Fail(sig, "%s at %s for:\n%s" % (r.get("panic", r), r.get("location", "?"), text))
 
@@ -232,7 +232,7 @@ def reqs_corrupt(case):
     return [{"op": "dtable", "text": corrupt(case["base"], case["pos"], case["rep"])}]
 
 
-def judge_corrupt(ctx, case, resp):
+def judge_corrupt(ctx, case, resp, profile="release"):
     r = resp[0]
     text = corrupt(case["base"], case["pos"], case["rep"])
     ch = case["base"][case["pos"]]
@@ -241,7 +241,7 @@ def judge_corrupt(ctx, case, resp):
     res = "recognised" if "table" in r else ("rejected" if "err" in r else "crash")
     ctx.note(key=text, nontrivial=(kind == "on-line-glyph" or how == "glyph"), labels=["corruption", kind + "/" + how + "/" + res],
              sample={"corrupted": text, "result": res} if how == "glyph" else None)
-    return outcome(ctx, r, text)
+    return outcome(ctx, r, text, profile)
 
 
 # ---- part 4: heavier damage (several characters, lines, columns) ---------------------------------------------------------
@@ -314,18 +314,18 @@ def setup(ctx):
                        "evaluation agreement with the reference evaluator is asserted only outside the trigger sets of C03's open findings"]
     ctx.p_gallery = ctx.register(Part("gallery", None, reqs_gallery, judge_gallery))
     ctx.p_round = ctx.register(Part("roundtrip", gen_roundtrip, reqs_roundtrip, judge_roundtrip))
-    ctx.p_corrupt = ctx.register(Part("corrupt", None, reqs_corrupt, judge_corrupt))
+    ctx.p_corrupt = ctx.register(Part("corrupt", None, reqs_corrupt, judge_corrupt, profile="both"))
     ctx.p_damage = ctx.register(Part("damage", gen_damage, reqs_damage, judge_damage))
 
 
 def run(ctx):
     ctx.enumerate(ctx.p_gallery, gallery_cases(ctx), batch=50, name="gallery drawings re-drawn by the renderer (layout variants)")
     ctx.forall(ctx.p_round, ctx.scale(4000, 300000), batch=200)
-    small = corruption_bases(ctx, ctx.scale(6, 60), True)
-    large = corruption_bases(ctx, ctx.scale(2, 60), False)
+    small = corruption_bases(ctx, ctx.scale(5, 60), True)
+    large = corruption_bases(ctx, ctx.scale(1, 60), False)
     ctx.enumerate(ctx.p_corrupt, single_corruptions(small + large), batch=1000,
                   name="every position x {delete, blank, each box glyph} of generated drawings", exhaustive=True)
-    ctx.forall(ctx.p_damage, ctx.scale(8000, 600000), batch=500)
+    ctx.forall(ctx.p_damage, ctx.scale(4000, 600000), batch=500)
 
 
 if __name__ == "__main__":
